@@ -445,14 +445,54 @@ theorem noAdj_head (ver : Str) (h61 : 61 ∉ ver) (n : Nat) :
     rw [this, hv]
     simp [noAdj, h2]
 
-/-- `get_msg_type` on bytes whose first `35=` is at the end of `P` -/
-theorem getMsgType_at (P ty rest : Bytes) (hP : noAdj P = true) (h1 : 1 ∉ ty) (ha : ty.all (· < 128) = true) :
-    getMsgType (P ++ [51, 53, 61] ++ (ty ++ 1 :: rest)) = .ok ty := by
-  have e0 := findSub_35_after P (ty ++ 1 :: rest) hP
-  have e1 : findFrom [1] (P ++ [51, 53, 61] ++ (ty ++ 1 :: rest)) (P.length + 2) = some (P.length + 3 + ty.length) := by
+/-- bytes `Q ++ [SOH] ++ …` with no `5=` inside `Q ++ [SOH]` do not begin with `35=` -/
+theorem isPrefix35_false (Q R : Bytes) (h : noAdj (Q ++ [1]) = true) :
+    List.isPrefixOf [51, 53, 61] (Q ++ [1] ++ R) = false := by
+  match Q, h with
+  | [], _ => simp [List.isPrefixOf]
+  | [a], _ => simp [List.isPrefixOf]
+  | [a, b], _ => simp [List.isPrefixOf]
+  | a :: b :: c :: Q', h =>
+    simp only [List.cons_append, noAdj, Bool.and_eq_true, Bool.not_eq_true', Bool.and_eq_false_iff, beq_eq_false_iff_ne] at h
+    simp only [List.cons_append, List.isPrefixOf, Bool.and_eq_false_iff, beq_eq_false_iff_ne]
+    rcases h.2.1 with h1 | h1
+    · exact Or.inr (Or.inl (fun e => h1 e.symm))
+    · exact Or.inr (Or.inr (Or.inl (fun e => h1 e.symm)))
+
+/-- the first `SOH 35=` of `Q ++ SOH 35= ++ R` is the one after `Q` when `Q ++ [SOH]` contains no `5=` -/
+theorem findSub_s35_after (Q R : Bytes) (h : noAdj (Q ++ [1]) = true) :
+    findSub [1, 51, 53, 61] (Q ++ [1, 51, 53, 61] ++ R) = some Q.length := by
+  induction Q with
+  | nil => simp [findSub, List.isPrefixOf]
+  | cons x Q ih =>
+    have ih' := ih (noAdj_tail h)
+    have hnot : List.isPrefixOf [1, 51, 53, 61] (x :: Q ++ [1, 51, 53, 61] ++ R) = false := by
+      match Q, h with
+      | [], _ => simp [List.isPrefixOf]
+      | [a], _ => simp [List.isPrefixOf]
+      | [a, b], _ => simp [List.isPrefixOf]
+      | a :: b :: c :: Q', h =>
+        simp only [List.cons_append, noAdj, Bool.and_eq_true, Bool.not_eq_true', Bool.and_eq_false_iff, beq_eq_false_iff_ne] at h
+        simp only [List.cons_append, List.isPrefixOf, Bool.and_eq_false_iff, beq_eq_false_iff_ne]
+        rcases h.2.2.1 with h1 | h1
+        · exact Or.inr (Or.inr (Or.inl (fun e => h1 e.symm)))
+        · exact Or.inr (Or.inr (Or.inr (Or.inl (fun e => h1 e.symm))))
+    simp only [List.cons_append, List.append_assoc] at hnot ih' ⊢
+    simp only [findSub, hnot, Bool.false_eq_true, if_false, ih', Option.map_some, List.length_cons]
+
+/-- `get_msg_type` on bytes in which the first field that starts with `35=` follows `Q ++ [SOH]` -/
+theorem getMsgType_at (Q ty rest : Bytes) (hP : noAdj (Q ++ [1]) = true) (h1 : 1 ∉ ty) (ha : ty.all (· < 128) = true) :
+    getMsgType (Q ++ [1] ++ [51, 53, 61] ++ (ty ++ 1 :: rest)) = .ok ty := by
+  have ep : List.isPrefixOf [51, 53, 61] (Q ++ [1] ++ [51, 53, 61] ++ (ty ++ 1 :: rest)) = false := by
+    have := isPrefix35_false Q ([51, 53, 61] ++ (ty ++ 1 :: rest)) hP
+    simpa using this
+  have e0 : findSub [1, 51, 53, 61] (Q ++ [1] ++ [51, 53, 61] ++ (ty ++ 1 :: rest)) = some Q.length := by
+    have := findSub_s35_after Q (ty ++ 1 :: rest) hP
+    simpa using this
+  have e1 : findFrom [1] (Q ++ [1] ++ [51, 53, 61] ++ (ty ++ 1 :: rest)) (Q.length + 3) = some (Q.length + 4 + ty.length) := by
     rw [findFrom_eq _ _ _ (by simp)]
-    have : (P ++ [51, 53, 61] ++ (ty ++ 1 :: rest)).drop (P.length + 2) = (61 :: ty) ++ 1 :: rest := by
-      have e : P ++ [51, 53, 61] ++ (ty ++ 1 :: rest) = (P ++ [51, 53]) ++ ((61 :: ty) ++ 1 :: rest) := by simp
+    have : (Q ++ [1] ++ [51, 53, 61] ++ (ty ++ 1 :: rest)).drop (Q.length + 3) = (61 :: ty) ++ 1 :: rest := by
+      have e : Q ++ [1] ++ [51, 53, 61] ++ (ty ++ 1 :: rest) = (Q ++ [1, 51, 53]) ++ ((61 :: ty) ++ 1 :: rest) := by simp
       rw [e, List.drop_left' (by simp)]
     rw [this, findSub_one_append 1 (61 :: ty) rest (by
       intro hm; rcases List.mem_cons.mp hm with hm | hm
@@ -460,11 +500,11 @@ theorem getMsgType_at (P ty rest : Bytes) (hP : noAdj P = true) (h1 : 1 ∉ ty) 
       · exact h1 hm)]
     simp; omega
   unfold getMsgType
-  simp only [e0, e1]
-  have : (List.take (P.length + 3 + ty.length) (P ++ [51, 53, 61] ++ (ty ++ 1 :: rest))).drop (P.length + 2 + 1) = ty := by
-    have e : P ++ [51, 53, 61] ++ (ty ++ 1 :: rest) = (P ++ [51, 53, 61] ++ ty) ++ 1 :: rest := by simp
+  simp only [ep, Bool.false_eq_true, if_false, e0, e1]
+  have : (List.take (Q.length + 4 + ty.length) (Q ++ [1] ++ [51, 53, 61] ++ (ty ++ 1 :: rest))).drop (Q.length + 3 + 1) = ty := by
+    have e : Q ++ [1] ++ [51, 53, 61] ++ (ty ++ 1 :: rest) = (Q ++ [1] ++ [51, 53, 61] ++ ty) ++ 1 :: rest := by simp
     rw [e, List.take_left' (by simp; omega)]
-    have e2 : P ++ [51, 53, 61] ++ ty = (P ++ [51, 53, 61]) ++ ty := by simp
+    have e2 : Q ++ [1] ++ [51, 53, 61] ++ ty = (Q ++ [1] ++ [51, 53, 61]) ++ ty := by simp
     rw [e2, List.drop_left' (by simp)]
   rw [this]
   unfold decodeAscii
